@@ -8,6 +8,7 @@ import (
 	"sort"
 	"strings"
 	"sync"
+	"sync/atomic"
 	"time"
 
 	"github.com/pion/stun/v3"
@@ -28,9 +29,16 @@ type clConn struct {
 	writes      [][]byte
 	failIDs     [][]byte
 	closeErr    bool
+	inRead      int32
+	// Do: a response handed to the reader while the request with this id is being written
+	doID      []byte
+	doResp    []byte
+	doStarted chan struct{}
 }
 
 func (c *clConn) Read(b []byte) (int, error) {
+	atomic.AddInt32(&c.inRead, 1)
+	defer atomic.AddInt32(&c.inRead, -1)
 	select {
 	case c.readEntered <- struct{}{}:
 	case <-c.closed:
@@ -57,6 +65,18 @@ func (c *clConn) Write(b []byte) (int, error) {
 				return 0, errScriptedWrite
 			}
 		}
+		if c.doResp != nil && bytes.Equal(c.doID, b[8:20]) {
+			resp, started := c.doResp, c.doStarted
+			c.doResp = nil
+			select {
+			case c.inbox <- resp:
+				select { // the write "returns" once the response is being handled
+				case <-started:
+				case <-time.After(5 * time.Second):
+				}
+			case <-time.After(5 * time.Second):
+			}
+		}
 	}
 	return len(b), nil
 }
@@ -72,10 +92,18 @@ func (c *clConn) Close() error {
 	return nil
 }
 
-type manualCollector struct{ f func(time.Time) }
+type manualCollector struct {
+	f    func(time.Time)
+	slow int32 // Close takes a moment (widens the window in which concurrent Close calls overlap)
+}
 
 func (m *manualCollector) Start(_ time.Duration, f func(now time.Time)) error { m.f = f; return nil }
-func (m *manualCollector) Close() error                                      { return nil }
+func (m *manualCollector) Close() error {
+	if atomic.LoadInt32(&m.slow) != 0 {
+		time.Sleep(2 * time.Millisecond)
+	}
+	return nil
+}
 
 type virtualClock struct {
 	mu  sync.Mutex
@@ -114,7 +142,11 @@ func cevKind(e stun.Event) string {
 	var se stun.StopErr
 	switch {
 	case e.Error == nil && e.Message != nil:
-		return "msg:" + showHex(e.Message.Raw)
+		s := fmt.Sprintf("msg:%s/a%d", showHex(e.Message.Raw), len(e.Message.Attributes))
+		for _, a := range e.Message.Attributes {
+			s += fmt.Sprintf(".%d-%d-%d", int(a.Type), int(a.Length), len(a.Value))
+		}
+		return s
 	case errors.Is(e.Error, stun.ErrTransactionTimeOut):
 		return "timeout"
 	case errors.Is(e.Error, stun.ErrAgentClosed):
@@ -278,26 +310,200 @@ func (e *executor) clientOp(t []string) (string, bool) {
 		x.c.SetRTO(time.Duration(atoi(t[2])))
 		return "ok", true
 	case t[1] == "close" && len(t) == 2:
-		done := make(chan error, 1)
-		go func() { done <- x.c.Close() }()
-		var err error
-		deadline := time.After(20 * time.Second)
-	loop:
-		for {
+		err, reader := x.closeOnce()
+		return "ret=" + clientErr(err) + " " + x.outs() + " reader=" + reader, true
+	case t[1] == "do" && len(t) == 6:
+		return x.doOp(t), true
+	case t[1] == "conc" && len(t) == 4:
+		return x.concOp(atoi(t[2]), uint64(atoi(t[3]))), true
+	}
+	return "", false
+}
+
+// Close, observing whether the reader goroutine had left Read when Close returned.
+// Under WithNoConnClose the caller owns the connection: its Read is released only a moment after Close was called,
+// so a Close that returns earlier did not wait for the reader.
+func (x *clientExec) closeOnce() (error, string) {
+	done := make(chan error, 1)
+	go func() { done <- x.c.Close() }()
+	var err error
+	reader := ""
+	if x.noClose && !x.closed {
+		select {
+		case err = <-done:
+			if atomic.LoadInt32(&x.conn.inRead) > 0 {
+				reader = "running"
+			}
+			done <- err
+		case <-time.After(3 * time.Millisecond):
+		}
+	}
+	deadline := time.After(20 * time.Second)
+loop:
+	for {
+		select {
+		case err = <-done:
+			break loop
+		case <-deadline:
+			return errors.New("close-hang"), "hang"
+		case x.conn.kick <- struct{}{}: // WithNoConnClose: the connection's Read eventually returns
+		case <-x.conn.readEntered:
+		case <-time.After(time.Millisecond):
+		}
+	}
+	if reader == "" {
+		if atomic.LoadInt32(&x.conn.inRead) > 0 {
+			reader = "running"
+		} else {
+			reader = "exited"
+		}
+	}
+	if reader == "running" { // let the stray reader go
+		for i := 0; i < 200 && atomic.LoadInt32(&x.conn.inRead) > 0; i++ {
 			select {
-			case err = <-done:
-				break loop
-			case <-deadline:
-				return "close-hang", true
-			case x.conn.kick <- struct{}{}: // WithNoConnClose: the connection's Read eventually returns
+			case x.conn.kick <- struct{}{}:
 			case <-x.conn.readEntered:
 			case <-time.After(time.Millisecond):
 			}
 		}
-		if err == nil || !errors.Is(err, stun.ErrClientClosed) {
-			x.closed = true
-		}
-		return "ret=" + clientErr(err) + " " + x.outs(), true
 	}
-	return "", false
+	if err == nil || !errors.Is(err, stun.ErrClientClosed) {
+		x.closed = true
+	}
+	return err, reader
+}
+
+// CL do <id> <raw> <resp> <h>: Client.Do; the response reaches the reader while Start is still inside Write, so that
+// the event is handled before Do starts waiting; the callback takes a moment. Do must not return before it finished.
+func (x *clientExec) doOp(t []string) string {
+	m := &stun.Message{Raw: unhex(t[3])}
+	copy(m.TransactionID[:], unhex(t[2]))
+	started, release := make(chan struct{}), make(chan struct{})
+	var once sync.Once
+	var finished int32
+	rec := x.handler("h" + t[5])
+	f := func(e stun.Event) {
+		rec(e)
+		once.Do(func() { close(started) })
+		select {
+		case <-release:
+		case <-time.After(10 * time.Millisecond):
+		}
+		atomic.StoreInt32(&finished, 1)
+	}
+	if !x.closed {
+		x.conn.mu.Lock()
+		x.conn.doID, x.conn.doResp, x.conn.doStarted = unhex(t[2]), unhex(t[4]), started
+		x.conn.mu.Unlock()
+	}
+	done := make(chan error, 1)
+	go func() { done <- x.c.Do(m, f) }()
+	var err error
+	select {
+	case err = <-done:
+	case <-time.After(10 * time.Second):
+		return "do-hang"
+	}
+	fin := atomic.LoadInt32(&finished)
+	close(release)
+	x.conn.mu.Lock()
+	delivered := !x.closed && x.conn.doResp == nil
+	x.conn.doResp = nil
+	x.conn.mu.Unlock()
+	how := "none"
+	if delivered {
+		if !x.waitReader() {
+			return "reader-stuck"
+		}
+		how = "after-callback"
+		if fin == 0 {
+			how = "before-callback"
+		}
+	}
+	return "ret=" + clientErr(err) + " " + x.outs() + " do=" + how
+}
+
+// CL conc <k> <seed>: k goroutines race Close (at least two of them) with Start, Indicate and SetRTO.
+func (x *clientExec) concOp(k int, seed uint64) string {
+	r := &rng{s: seed | 1}
+	atomic.StoreInt32(&x.coll.slow, 1)
+	var wg sync.WaitGroup
+	var okCloses, closedCloses, other int32
+	begin := make(chan struct{})
+	stop := make(chan struct{})
+	if !x.closed { // keep the reader's Read returning, as the precondition of WithNoConnClose demands
+		go func() {
+			for {
+				select {
+				case <-stop:
+					return
+				case x.conn.kick <- struct{}{}:
+				case <-x.conn.readEntered:
+				}
+			}
+		}()
+	}
+	for i := 0; i < k; i++ {
+		kind := 0
+		if i >= 2 {
+			kind = r.intn(5)
+		}
+		id := r.bytes(12)
+		hn := 900000 + i
+		wg.Add(1)
+		go func() {
+			defer wg.Done()
+			<-begin
+			switch kind {
+			case 0, 1:
+				err := x.c.Close()
+				switch {
+				case errors.Is(err, stun.ErrClientClosed):
+					atomic.AddInt32(&closedCloses, 1)
+				case err == nil || clientErr(err) == "close-err":
+					atomic.AddInt32(&okCloses, 1)
+				default:
+					atomic.AddInt32(&other, 1)
+				}
+			case 2:
+				m := &stun.Message{Raw: reqFor(id, 28, 3)}
+				copy(m.TransactionID[:], id)
+				x.c.Start(m, x.handler(fmt.Sprintf("h%d", hn))) //nolint:errcheck
+			case 3:
+				m := &stun.Message{Raw: reqFor(id, 20, 0)}
+				copy(m.TransactionID[:], id)
+				x.c.Indicate(m) //nolint:errcheck
+			default:
+				x.c.SetRTO(time.Duration(100 + hn))
+			}
+		}()
+	}
+	close(begin)
+	fin := make(chan struct{})
+	go func() { wg.Wait(); close(fin) }()
+	select {
+	case <-fin:
+	case <-time.After(20 * time.Second):
+		return "conc-hang"
+	}
+	close(stop)
+	atomic.StoreInt32(&x.coll.slow, 0)
+	reader := "exited"
+	if atomic.LoadInt32(&x.conn.inRead) > 0 && !x.closed {
+		reader = "running"
+	}
+	x.closed = true
+	x.conn.mu.Lock()
+	cc := x.conn.closeCount
+	x.conn.closeCount = 0
+	x.conn.writes = nil
+	x.conn.mu.Unlock()
+	x.mu.Lock()
+	x.cbs = nil
+	x.mu.Unlock()
+	s := fmt.Sprintf("closes=%d connclose=%d reader=%s", okCloses, cc, reader)
+	if other != 0 {
+		s += fmt.Sprintf(" unexpected-close-results=%d", other)
+	}
+	return s
 }
